@@ -3,4 +3,8 @@ open Datatypes
 module Nat :
  sig
   val eqb : nat -> nat -> bool
+
+  val leb : nat -> nat -> bool
+
+  val ltb : nat -> nat -> bool
  end
